@@ -1406,7 +1406,19 @@ pub fn do_wait(conn: &mut Conn<'_, '_>, kind: Wait, opts: Option<ExecOpts>) -> R
                     });
                 }
             }
-            if !unknown && !too_large {
+            let carried = w.conns[cur].owed_acks.is_empty() && !w.conns[cur].carry_acks.is_empty();
+            let owed = w.conns[cur].owed_acks.front().copied().or(w.conns[cur].carry_acks.front().copied());
+            w.probe(if owed.is_some() { "packet_too_large_on_live_connection_with_owed_ack" } else { "packet_too_large_on_live_connection" });
+            if let (false, false, Some((t, id, _)), true) = (unknown, too_large, owed, limit.map_or(false, |m| m < 6)) {
+                // C14: nothing the session holds is too large, so it is the acknowledgement it
+                // owes that does not fit (2 to 6 bytes, the form is the client's choice): "the
+                // connection is closed instead" - this one is still open
+                w.violate(
+                    "C14",
+                    format!("ack-does-not-fit-but-connection-stays-open/{}{}", codec::type_name_of(t), if carried { "/carried-over-from-an-earlier-connection" } else { "" }),
+                    format!("{opname} returned PacketTooLarge (Maximum Packet Size {:?}) while {} {id} is owed, and the handle is still connected", limit, codec::type_name_of(t)),
+                );
+            } else if !unknown && !too_large {
                 if let Some((tag, prop, kind_s)) = blocked {
                     w.violate(
                         prop,
